@@ -3,6 +3,7 @@ seeding agents: mkprompts.py <round> <first seed number>. The agents see only th
 property text, the list of sites already used, and their own worktree."""
 import json, os, subprocess, re, sys
 ROUND, FIRST = int(sys.argv[1]), int(sys.argv[2])
+ONE_ONLY = len(sys.argv) > 3 and sys.argv[3] == "one"
 tmpl = open(os.path.join(os.path.dirname(os.path.abspath(__file__)),'seed-prompt.txt')).read()
 props = {json.loads(l)['id']: json.loads(l) for l in open('/verif/properties.jsonl')}
 head = subprocess.check_output(['git','-C','/repo','rev-parse','HEAD'], text=True).strip()
@@ -38,6 +39,9 @@ for pid, p in props.items():
         "- In each seeded/<n>/ also write run.json: {\"demo_file\": \"<file name in seeded/<n>/>\", \"place_at\": \"<path in the tree where the demo file must be copied>\", \"package\": \"./<go package path>/\", \"run\": \"<-run regex>\"}.\n" \
         "- Never use `git stash` (its storage is shared with other worktrees of this repository). Switch between changed and unchanged trees with `git apply seeded/<n>/patch.diff` and `git apply -R seeded/<n>/patch.diff`.\n" \
         "- A demonstration's fake API server must behave like the real one where it matters: an Update or Patch that changes nothing does not change the resourceVersion; Lists honour label and field selectors; a merge patch replaces lists wholesale.\n"
+    if ONE_ONLY:
+        extra += f"- This round deliver ONE change only (number {FIRST}; ignore every mention of a second one above). Its trigger must be dynamic: an interleaving with another actor, an API fault or crash at a specific call, a stale or missing cache read, or a multi-step sequence of edits - not merely an unusual input. It must break the property within the property's own quantification (read the 'Quantification' line): do not rely on circumstances it does not list.\n" \
+            "- More facts about the real API server your fake must respect: a patch (merge, JSON or apply) of the *status subresource* of a custom resource ignores metadata (including metadata.uid) in the patch body; an Update carries a UID precondition only through the object's own metadata.uid; a List served by a cache can lag, but do not build a demonstration on a lagging List unless the property's quantification mentions caches or stale reads.\n"
     s = s.replace("\nFinal answer to me:", extra + "\nFinal answer to me:")
     open(f"/tmp/s{ROUND}-{pid}.prompt.txt", "w").write(s)
 print("ok", head[:7])
